@@ -33,6 +33,7 @@ type c20SCase struct {
 	ID       int       `json:"id"`
 	NSubs    int       `json:"nsubs"`  // subscribers created before the threads start (sched mode)
 	NTopics  int       `json:"ntopics"`
+	Init     [][]int   `json:"init"`   // ops applied sequentially before the threads start (sched mode)
 	Ops      [][]int   `json:"ops"`    // sequential mode
 	Progs    [][][]int `json:"progs"`  // sched mode
 	Sched    []int     `json:"sched"`
@@ -223,6 +224,9 @@ func c20RunSched(c c20SCase) c20TOut {
 	for i := 0; i < c.NSubs; i++ {
 		w.subs = append(w.subs, w.st.AddSubscriber())
 	}
+	for _, op := range c.Init {
+		w.apply(op)
+	}
 	sc := &c20Sched{}
 	var step atomic.Int64
 	ths := make([]*c20Thread, len(c.Progs))
@@ -366,6 +370,7 @@ type c20StressRound struct {
 	Final  [][][]int     `json:"final"`
 	FinalLen []int64     `json:"final_len"`
 	Panic  string        `json:"panic"`
+	Hang   bool          `json:"hang"`
 }
 
 func TestVerifC20StreamStress(t *testing.T) {
@@ -453,8 +458,17 @@ func TestVerifC20StreamStress(t *testing.T) {
 				}(s)
 			}
 		}
-		pwg.Wait()
-		owg.Wait()
+		fin := make(chan struct{})
+		go func() { pwg.Wait(); owg.Wait(); close(fin) }()
+		select {
+		case <-fin:
+		case <-time.After(time.Duration(verifEnvInt("VERIF_C20_HANG_MS", 8000)) * time.Millisecond):
+			mu.Lock()
+			wr.put(c20StressRound{Round: r, Hang: true, Events: []c20StressEv{}, Final: [][][]int{}, FinalLen: []int64{}})
+			mu.Unlock()
+			runtime.GOMAXPROCS(old)
+			return
+		}
 		for _, s := range subs {
 			all := [][]int{}
 			func() {
